@@ -51,6 +51,8 @@ func runC14(p *core.Program, r *core.Report) {
 	c14R6(p, r)
 	c14R7(p, r)
 	c14R16(p, r)
+	c14R17(p, r, fs)
+	c14R18(p, r, fs)
 	// R8: "the answer is the same on every call": nothing reached by the resolver keeps state on the loaded package
 	r.Floor("R8", 1)
 	universeWriteScan(p, r, "R8", nil)
